@@ -110,4 +110,17 @@ def okRaw (c : Conv) (raw : Nat) : Bool :=
   | .ok r => r == (raw : Int)
   | .error _ => false
 
+/-- displayed value of a scaled number as a fraction (0 for the non-float classes) -/
+def shownQ (c : Conv) (raw : Nat) : Q :=
+  match display c raw with
+  | .float q => q
+  | _ => ⟨0, 1⟩
+
+/-- the displayed value does not decrease from `raw` to `raw + 1` -/
+def stepMono (c : Conv) (raw : Nat) : Bool := Q.le (shownQ c raw) (shownQ c (raw + 1))
+
+/-- per-value obligation of C17's chunk theorems: the write-back check, and monotonicity of the
+displayed value towards the next raw value (except at the last raw value `top`) -/
+def okStep (c : Conv) (top : Nat) (raw : Nat) : Bool := okRaw c raw && (raw == top || stepMono c raw)
+
 end PlumVerif.Scaling
